@@ -345,7 +345,7 @@ func (r *resolver) applyDeviation(y *Module, d *Deviation) error {
 	if d.Replace != nil {
 		if err := applicable(d.Replace.configPtr != nil || d.Replace.mandatoryPtr != nil,
 			d.Replace.maxElementsPtr != nil || d.Replace.minElementsPtr != nil,
-			d.Replace.units != "" || d.Replace.HasDefault(), false, false); err != nil {
+			d.Replace.units != "" || d.Replace.HasDefault() || d.Replace.dtype != nil, false, false); err != nil {
 			return err
 		}
 	}
@@ -425,6 +425,9 @@ func (r *resolver) applyDeviation(y *Module, d *Deviation) error {
 				return fmt.Errorf("min-elements not set on %s", d.Ident())
 			}
 			hasListDets.setMinElements(*(d.Replace).minElementsPtr)
+		}
+		if d.Replace.dtype != nil {
+			hasType.setType(d.Replace.dtype)
 		}
 		if d.Replace.units != "" {
 			if hasType.Units() == "" {
